@@ -92,6 +92,22 @@ Proof. apply (step_never_asserts seg idx maxi SCq q_nonneg q_zero q_next q_mono 
 Theorem sqrt_inv_empty : inv seg maxi SCq empty.
 Proof. apply (inv_empty seg maxi SCq q_nonneg q_bound maxi_pos). Qed.
 
+Lemma q_idx_zero : idx 0 0 = 0.
+Proof. apply (SegSqrt_Proofs.seg_first L HL64). Qed.
+Ltac dq := first [exact q_nonneg|exact q_zero|exact q_next|exact q_mono|exact q_bound|exact q_cap_lt|exact maxi_pos|exact q_idx_zero|eassumption].
+
+(* two arrays: every world operation keeps both invariants and the id discipline *)
+Theorem sqrt_wstep_inv w o : winv seg maxi SCq w -> wop_ok idx maxi w o ->
+  exists w', wstep seg idx w o = Some w' /\ winv seg maxi SCq w'.
+Proof. intros. eapply (wstep_inv seg idx maxi SCq); dq. Qed.
+
+Theorem sqrt_copy_is_fresh w sh w' : winv seg maxi SCq w -> wop_ok idx maxi w (CopyAB sh) -> wstep seg idx w (CopyAB sh) = Some w' ->
+  cb w' = ca w /\ ca w' = ca w /\ sa w' = sa w /\ (forall id, In id (sb w') -> ~ In id (sa w) /\ ~ In id (sb w)).
+Proof. intros. eapply (copy_is_fresh seg idx maxi SCq); dq. Qed.
+
+Theorem sqrt_wreachable_inv w : wreachable seg idx maxi w -> winv seg maxi SCq w.
+Proof. intros. eapply (wreachable_inv seg idx maxi SCq); dq. Qed.
+
 Theorem sqrt_reachable_inv st : reachable seg idx maxi st -> inv seg maxi SCq st.
 Proof. apply (reachable_inv seg idx maxi SCq q_nonneg q_zero q_next q_mono q_bound q_cap_lt maxi_pos). Qed.
 End Sqrt.
@@ -167,6 +183,21 @@ Proof. apply (step_never_asserts seg idx maxi SCc c_nonneg c_zero c_next c_mono 
 
 Theorem cnst_inv_empty : inv seg maxi SCc empty.
 Proof. apply (inv_empty seg maxi SCc c_nonneg c_bound maxi_pos). Qed.
+
+Lemma c_idx_zero : idx 0 0 = 0.
+Proof. unfold idx. rewrite SegCnst_Proofs.gen_idx; try lia. Qed.
+Ltac dc := first [exact c_nonneg|exact c_zero|exact c_next|exact c_mono|exact c_bound|exact c_cap_lt|exact maxi_pos|exact c_idx_zero|eassumption].
+
+Theorem cnst_wstep_inv w o : winv seg maxi SCc w -> wop_ok idx maxi w o ->
+  exists w', wstep seg idx w o = Some w' /\ winv seg maxi SCc w'.
+Proof. intros. eapply (wstep_inv seg idx maxi SCc); dc. Qed.
+
+Theorem cnst_copy_is_fresh w sh w' : winv seg maxi SCc w -> wop_ok idx maxi w (CopyAB sh) -> wstep seg idx w (CopyAB sh) = Some w' ->
+  cb w' = ca w /\ ca w' = ca w /\ sa w' = sa w /\ (forall id, In id (sb w') -> ~ In id (sa w) /\ ~ In id (sb w)).
+Proof. intros. eapply (copy_is_fresh seg idx maxi SCc); dc. Qed.
+
+Theorem cnst_wreachable_inv w : wreachable seg idx maxi w -> winv seg maxi SCc w.
+Proof. intros. eapply (wreachable_inv seg idx maxi SCc); dc. Qed.
 
 Theorem cnst_reachable_inv st : reachable seg idx maxi st -> inv seg maxi SCc st.
 Proof. apply (reachable_inv seg idx maxi SCc c_nonneg c_zero c_next c_mono c_bound c_cap_lt maxi_pos). Qed.
